@@ -310,31 +310,57 @@ def run_property(mod, tier, seed, replay=None, budget_s=None):
                 if f.endswith(".json"):
                     cases.append(dict(json.load(open(os.path.join(corpus_dir, f))), _src="corpus:" + f))
         ncorp = len(cases)
+        gen = []
         for c in mod.cases(rng, tier):
             c.setdefault("_src", "gen")
-            cases.append(c)
+            gen.append(c)
+        # cases are independent of one another; a fixed shuffle makes a run that is cut short by its time budget
+        # (loaded machine) lose a random subset instead of the streams its generator happens to yield last
+        random.Random(seed * 7919 + 17).shuffle(gen)
+        cases += gen
 
     budget = budget_s or getattr(mod, "BUDGET", {}).get(tier) or (100 if tier == "quick" else 1500)
     records = []  # (case, obs, requests)
     tags = {}
     evaluations = 0
     truncated = False
-    for case in cases:
-        if time.time() - t0 > budget and not replay:
-            truncated = True
-            break
+    from harness import aging
+    age_every = int(os.environ.get("VERIF_AGE_EVERY", "5")) if getattr(mod, "AGING", True) else 0
+    aged_runs = 0
+    aged_time = 0.0
+
+    def run_one(case):
         try:
-            obs = mod.run_impl(case)
+            with aging.aging(bool(case.get("_aged"))):
+                return mod.run_impl(case)
         except MachineryError:
             raise
         except Exception as e:  # adapter crashed: treat as an oracle failure with traceback
-            obs = {"oracle": [f"adapter raised {type(e).__name__}: {e}"], "tags": ["adapter-crash"],
-                   "trace": traceback.format_exc()[-1500:]}
-        evaluations += 1
-        for tg in obs.get("tags", []):
-            tags[tg] = tags.get(tg, 0) + 1
-        reqs = mod.model_requests(case, obs)
-        records.append((case, obs, reqs))
+            return {"oracle": [f"adapter raised {type(e).__name__}: {e}"], "tags": ["adapter-crash"],
+                    "trace": traceback.format_exc()[-1500:]}
+
+    for idx, case0 in enumerate(cases):
+        if time.time() - t0 > budget and not replay:
+            truncated = True
+            break
+        todo = [case0]
+        if (age_every and not replay and not case0.get("_aged") and idx % age_every == age_every - 1
+                and aged_time < 0.15 * budget):
+            # the same case once more on aged objects (harness/aging.py): same inputs, other history
+            todo.append(dict(case0, _aged=True, _src=str(case0.get("_src", "gen")) + "+aged"))
+        for case in todo:
+            t_case = time.time()
+            obs = run_one(case)
+            evaluations += 1
+            if case.get("_aged"):
+                aged_runs += 1
+                aged_time += time.time() - t_case
+                obs.setdefault("tags", []).append("aged-objects")
+            for tg in obs.get("tags", []):
+                tags[tg] = tags.get(tg, 0) + 1
+            # an adapter that raised has no observables: the failure is reported, nothing is sent to the model
+            reqs = [] if "adapter-crash" in obs.get("tags", []) else mod.model_requests(case, obs)
+            records.append((case, obs, reqs))
 
     flat = [r for _, _, reqs in records for r in reqs]
     resps = driver(flat, pid)
@@ -351,7 +377,7 @@ def run_property(mod, tier, seed, replay=None, budget_s=None):
                 for tg in r.get("tags", []) if isinstance(r.get("tags"), list) else []:
                     tags["model:" + tg] = tags.get("model:" + tg, 0) + 1
         try:
-            dis = mod.compare(case, obs, rs)
+            dis = [] if "adapter-crash" in obs.get("tags", []) else mod.compare(case, obs, rs)
         except MachineryError:
             raise
         except Exception as e:
@@ -361,7 +387,7 @@ def run_property(mod, tier, seed, replay=None, budget_s=None):
             failures.append(dict(case=case, kind="oracle", text=text))
         for text in dis:
             failures.append(dict(case=case, kind="correspondence", text=text))
-        if mod.nontrivial(case, obs):
+        if "adapter-crash" not in obs.get("tags", []) and mod.nontrivial(case, obs):
             c2 = {k: v for k, v in case.items() if not k.startswith("_")}
             distinct.add(case_hash(jsonable(c2)))
 
@@ -395,10 +421,7 @@ def run_property(mod, tier, seed, replay=None, budget_s=None):
                 for c2 in mod.search(fs0[0]["case"], rng):
                     if time.time() - t1 > (60 if tier == "quick" else 300):
                         break
-                    try:
-                        o2 = mod.run_impl(c2)
-                    except Exception as e:
-                        o2 = {"oracle": [f"adapter raised {type(e).__name__}: {e}"]}
+                    o2 = run_one(c2)
                     bad = [t for t in o2.get("oracle", [])
                            if not ((mod.known(c2, t) if hasattr(mod, "known") else None) in open_ids)]
                     if bad:
@@ -423,7 +446,7 @@ def run_property(mod, tier, seed, replay=None, budget_s=None):
                 other_failing_cases=len(bycase) - 1,
                 no_failing_input_found=(primary["kind"] != "oracle"),
                 broken_obligation=(None if primary["kind"] == "oracle" else
-                                   f"correspondence of model ops {sorted({r['op'] for r in mod.model_requests(primary['case'], mod.run_impl(primary['case']))})} "
+                                   f"correspondence of model ops {sorted({r['op'] for r in mod.model_requests(primary["case"], run_one(primary["case"]))})} "
                                    f"with the implementation; theorems of DFV.Props.{pid} rest on it"),
                 theorems=audit["theorems"],
                 replay_cmd=f"./check {pid} --replay {rpath}",
@@ -477,6 +500,7 @@ def run_property(mod, tier, seed, replay=None, budget_s=None):
             distribution=dict(sorted(tags.items())),
             unproved_subclaims=list(getattr(mod, "UNPROVED", [])),
             truncated_by_budget=truncated,
+            aged_runs=aged_runs, aged_time_s=round(aged_time, 1), aging=dict(aging.STATS),
             exhaustive=False,
             leanchecker=audit.get("leanchecker", "not run (thorough tier only)"),
             lean_s=audit["lean_s"],
